@@ -24,8 +24,9 @@ func (c19) Info() core.Info {
 		Rule: "invariant monitor after a parse and after EVERY step of a history of setters, resolutions and clones (host pools rich in IPv4/IPv6/domain switches, " +
 			"ports 0/default/65535): IsIPv6 <=> hostname is [..]; IsIPv4 <=> special and hostname is four decimal octets; DecodedPort = atoi(Port) if a port is " +
 			"present (incl. 0) else the scheme's default port or 0; Protocol = Scheme+':'; Search/Query and Hash/Fragment differ by the delimiter; OpaquePath <=> the text " +
-			"after 'scheme:' in Href does not start with '/'; IsSpecialScheme <=> scheme in the special table. Non-trivial: a URL state was reached; distinct by (input, base, history).",
-		Assumptions: []string{"default parser only (special table = the standard's)"},
+			"after 'scheme:' in Href does not start with '/'; IsSpecialScheme <=> scheme in the special table. Plus histories on URLs of parsers with custom special-scheme tables interleaved in the same process " +
+			"(DecodedPort / IsSpecialScheme must follow the table of the parser that made the URL) and interference passes. Non-trivial: a URL state was reached; distinct by (input, base, history).",
+		Assumptions: []string{"shape rules (OpaquePath, IsIPv4) are checked under the default parser; the table-dependent accessors also under custom tables"},
 		MinDistinct: map[string]int{"quick": 100000, "thorough": 1000000},
 	}
 }
